@@ -8,6 +8,7 @@ import (
 var opAssign = map[token.Token]token.Token{
 	token.SHR_ASSIGN: token.SHR, token.SHL_ASSIGN: token.SHL, token.OR_ASSIGN: token.OR,
 	token.AND_ASSIGN: token.AND, token.MUL_ASSIGN: token.MUL,
+	token.ADD_ASSIGN: token.ADD, token.SUB_ASSIGN: token.SUB,
 }
 
 func (ft *ftrans) simple(s ast.Stmt, e *env) {
